@@ -158,8 +158,11 @@ REG['C11'] = {
              twin=[('ensures r == (index as int) % (size as int), 0 <= r < size,', 'ensures r == (index as int) % (size as int) + 1, 0 <= r < size,')],
              clause='index_of(index, size) == index mod size (Euclidean) for all isize/usize; group laws of modular stepping'),
         dict(id='c03_month_step', template='verus/c03_month_step.rs', clause='LunarMonth::next moves the month ordinal by exactly n'),
+        dict(id='c12_time_next', template='verus/c12_time_next.rs', clause='SolarTime::next moves the absolute second by exactly n'),
+        dict(id='c14_week_step', template='verus/c14_week_step.rs', clause='SolarWeek::next / LunarWeek::next move the first day by exactly 7n'),
     ],
     'L': [
+        dict(id='c12_step', check='c12_step', range=(1, 9999), chunks=64, domain='boundary + pseudo-random instants per year x offsets up to +-1e9', clause='SolarTime::next(n) moves by exactly n seconds; subtract and order agree'),
         dict(id='c11_names', check='c11_names', range=(0, 0), chunks=1, exhaustive=True, domain='every index of 41 cyclic types + one unknown name each', clause='from_name(from_index(i).get_name()).index == i; unknown names refused'),
         dict(id='c11_linear', check='c11_linear', range=(1, 9998), chunks=64, domain='one value per year of each linear unit x step pairs', clause='next(0)==x, next(a).next(b)==next(a+b), next(a).next(-a)==x and unit size for weeks, lunar days/hours, sexagenary year/month/day/hour, terms, festivals'),
     ],
